@@ -73,7 +73,7 @@ class Roles:
             begins, undos = [], []
             for f in self.dedicated_impls(sp['trait'], sp['run']):
                 for (_, _, g) in self.work_callees(f, work):
-                    if 'ShardsRefMut' in (g.output or ''):
+                    if 'ShardsRefMut' in (g.output or '') or (g.output or '').startswith('std::result::Result<'):
                         begins.append(g.path)
                     elif g.inputs == ['&mut ' + work] and (g.output in ('()', None)):
                         undos.append(g.path)
